@@ -216,9 +216,13 @@ def fam_escape(quick: bool) -> list:
         graphs += [(7, e, 'none') for e in M.unlabelled_connected_graphs(7)
                    if len(e) == 6]
     for m, edges, mode in graphs:
+        # quick: the four (decay_delta, extended set) settings with the
+        # default decay_reset_on_gate, plus the default with it switched off
+        pars = [p for p in PARAMS if p[2]] + [[0.001, 20, False]] \
+            if quick else PARAMS
         variants = [
             ['trivial' if m == 6 else 'greedy', lay, p, None]
-            for p in PARAMS for lay in ((0, 1) if quick else (0, 1, 2))
+            for p in pars for lay in ((0, 1) if quick else (0, 1, 2))
         ]
         out += specs('escape', 6, m, edges, ('escape', mode), variants, 60)
     return out
@@ -272,7 +276,7 @@ def fam_pam(quick: bool) -> list:
         [['g', 2, 0], ['g', 0, 2]],
         [['g', 0, 2], ['b', 0, 2], ['g', 1, 2]],
     ]
-    for ops in two:
+    for ops in two[2:] if quick else two:
         for m, edges in m3[:2] if quick else m3:
             cases.append(case('pam', 3, ops, m, edges))
     m4 = [(4, M.line(4)), (4, M.star(4)), (5, M.line(5))]
@@ -281,12 +285,14 @@ def fam_pam(quick: bool) -> list:
         [['g', 0, 3], ['g', 2, 1], ['b', 0, 1, 2, 3], ['g', 0, 1],
          ['g', 3, 2]],
     ]
-    for ops in two4:
+    for ops in two4[1:] if quick else two4:
         for m, edges in m4[:2] if quick else m4:
             cases.append(case('pam', 4, ops, m, edges))
     # barrier scripts, simplest first
     for k in (2, 3):
         for ops in pam_barrier_scripts(3, k):
+            if quick and k == 3 and ops[-1][1:] == ops[-3][1:]:
+                continue      # barrier in front of a repeat of the last gate
             for m, edges in m3[:1] if quick else m3[:3]:
                 cases.append(case('pam', 3, ops, m, edges))
     if not quick:
